@@ -442,11 +442,62 @@ LIFECYCLES = [
     ("serve+in-flight gated requests, shutdown, server_close", True, 2, True, ["shutdown", "server_close"]),
     ("serve+more in-flight gated requests than workers (the rest accepted and queued), shutdown, server_close",
      True, 2, "queued", ["shutdown", "server_close"]),
+    ("serve+requests while a sibling server (own default pool) is served and closed, then requests, shutdown, "
+     "server_close", True, 2, "sibling", ["shutdown", "server_close"]),
     ("never served, server_close", False, 0, False, ["server_close"]),
     ("never served, server_close, server_close", False, 0, False, ["server_close", "server_close"]),
     ("handle_request x2 (no serve_forever), server_close", "handle", 2, False, ["server_close"]),
     ("serve+requests, server_close alone (pooled servers stop themselves)", True, 2, False, ["server_close"]),
 ]
+
+
+def sibling_lifecycle(ctx, rng, cell, family, lc):
+    """Two pooled servers, each with the request pool it built for itself, alive at the same time: closing one must
+    leave the other one serving, and closable."""
+    import jsonrpclib
+    label, serve, nreq, inflight, ops = lc
+    a = SrvUnderTest(cell, family)
+    b = SrvUnderTest(cell, family)
+    case = {"cell": [cell[0], cell[1]], "family": family, "lifecycle_label": label}
+    ctx.cell(cell[0], "pool%s" % cell[1], family, "lifecycle")
+    ctx.case((cell, family, label), nontrivial=True)
+    ctx.count("lifecycles")
+    a.srv.start()
+    b.srv.start()
+
+    def ask(sut, tok, box):
+        try:
+            p = jsonrpclib.ServerProxy(sut.srv.url)
+            box.append(p.echo(tok)["bound"]["token"] == tok)
+            p("close")()
+        except BaseException as ex:  # noqa
+            box.append("raised %s" % type(ex).__name__)
+    for sut, tok in ((a, "a0"), (b, "b0")):
+        box = []
+        ask(sut, tok, box)
+        if box != [True]:
+            ctx.violate("reply-token-differs-from-sent:lifecycle", case, {"replies": box})
+    ok_b = lifecycle_close(ctx, b, case, ["shutdown", "server_close"], label + " [sibling]")
+    # the first server is still serving: its requests must be answered (bounded progress: 4 s without an answer)
+    answers = []
+    th = threading.Thread(target=lambda: [ask(a, "a%d" % i, answers) for i in (1, 2, 3)], name="vf-client-sibling")
+    th.daemon = True
+    th.start()
+    t0 = time.monotonic()
+    last, last_change = 0, t0
+    while th.is_alive():
+        time.sleep(0.01)
+        now = time.monotonic()
+        if len(answers) != last:
+            last, last_change = len(answers), now
+        elif now - last_change > 4.0:
+            break
+    ctx.count("judged:token-replies", len(answers))
+    if answers != [True, True, True]:
+        ctx.violate("clients-not-served:pooled:after-a-sibling-server-was-closed", case,
+                    {"answers": answers, "sibling_closed_ok": ok_b, "stacks": poolmon.thread_stacks(a.poolname)})
+        return
+    lifecycle_close(ctx, a, case, ops, label)
 
 
 def lifecycle(ctx, rng, cell, family, lc):
@@ -456,6 +507,10 @@ def lifecycle(ctx, rng, cell, family, lc):
         return  # closing a sequential server that is still serving is outside the stated histories
     if inflight == "queued" and (cell[0] != "pooled" or cell[1] is None or cell[1] in BOUNDED_QUEUE):
         return  # needs a request pool of known size with an unbounded queue
+    if inflight == "sibling":
+        if cell != ("pooled", None):
+            return  # two servers that each build their OWN default request pool
+        return sibling_lifecycle(ctx, rng, cell, family, lc)
     gate = threading.Event() if inflight else None
     sut = SrvUnderTest(cell, family, gate)
     case = {"cell": [cell[0], cell[1]], "family": family, "lifecycle_label": label}
